@@ -21,13 +21,13 @@ objects, `bigint` = JSON integer, `A & B` on objects = disjoint merge).  What is
 
 * `C01_items_sound` / `C01_types_sound` — END TO END for the core fragment (`Tree.fragB`: structs of
   every shape and enums of every representation with rename / rename_all / rename_all_fields / tag /
-  content / skip / per-variant untagged, any library types around user types, recursion; no generics,
-  flatten, inline, optional, `as`, `type`): for EVERY program in the fragment, every type, every value,
+  content / skip / per-variant untagged, type parameters (generic items at any instantiation), any library
+  types around user types, recursion; no flatten, inline, optional, `as`, `type`, `concrete`): for EVERY program in the fragment, every type, every value,
   every fuel, what the serde model writes inhabits what the tree-level derive (`Model/TreeDerive.lean`)
   declares. Tie: the tree-level derive is compared with the parsed REAL `decl()` of every corpus item in
   the fragment on every run (`tree_check`), the serde model with the real serde_json output.
 
-PARTIAL: outside that fragment (generics, flatten, inline, optional, `as`) the composition over the whole
+PARTIAL: outside that fragment (flatten, inline, optional, `as`, `concrete`) the composition over the whole
 derive is not one theorem; it is decided per run by the sound oracle on every generated program and
 value (thousands per run, all enum representations × shapes × attributes × generics).
 -/
@@ -99,13 +99,14 @@ theorem C01_reference (D : Decls) (n : Str) (args : List Ts) (ps : List Str) (bo
     Member D (.ref n args) j := Member.ref hl h
 
 /-- **end to end, user types**: in a program of the fragment, the JSON the serde model writes for ANY
-value of ANY item (at any depth of nesting, any fuel) inhabits the reference to the item's declaration as the
-tree-level derive declares it. -/
+value of ANY instantiation of ANY item — generic or not, at any depth of nesting, any fuel — inhabits the reference
+to the item's declaration applied to the TypeScript names of the type arguments, as the tree-level derive declares it. -/
 theorem C01_items_sound (cfg : Cfg) (env : Env) (hF : Tree.fragB cfg env = true)
     (fuel : Nat) (id : Str) (args : List RTy) (v : RVal) (j : JVal) (it : Item) (targs : List Ts)
-    (hfind : env.find id = some it) (hs : Serde.serItem cfg env fuel id args v = some j) (hc : cleanV v = true) :
+    (hfind : env.find id = some it) (hargs : Builtin.nameTyBL cfg.limit (Tree.nameN env) args = some targs)
+    (hs : Serde.serItem cfg env fuel id args v = some j) (hc : cleanV v = true) :
     Member (Tree.declsOf cfg env) (.ref (Derive.tsName it) targs) j :=
-  all_sound cfg env hF (fuel + 1) fuel (by omega) id args v j it targs hfind hs hc
+  all_sound cfg env hF (fuel + 1) fuel (by omega) id args v j it targs hfind hargs hs hc
 
 /-- **end to end, any type expression**: library constructors around user types -/
 theorem C01_types_sound (cfg : Cfg) (env : Env) (hF : Tree.fragB cfg env = true)
@@ -119,6 +120,8 @@ def exCfg : Cfg := { ops := Case.asciiOps }
 def exEnv : Env := [
   { isEnum := false, name := "Leaf".toList, attr := { renameAll := some .camel },
     fields := [{ name := some "leaf_x".toList, ty := .prim "u8" }, { name := some "s".toList, ty := .option (.prim "String") }] },
+  { isEnum := false, name := "G".toList, generics := [{ name := "T".toList }],
+    fields := [{ name := some "t".toList, ty := .param "T".toList }, { name := some "ts".toList, ty := .vec (.param "T".toList) }] },
   { isEnum := true, name := "E".toList, attr := { tag := some "t".toList },
     variants := [{ name := "A".toList, shape := .unit, fields := [] },
                  { name := "B".toList, shape := .named, fields := [{ name := some "leaf".toList, ty := .vec (.named "Leaf".toList []) }] }] }]
@@ -127,7 +130,7 @@ example : Tree.fragB exCfg exEnv = true := by decide +kernel
 -- evaluated, not kernel-checked (`serB` is defined by well-founded recursion): a test of the example, not a theorem
 #guard ((Serde.serItem exCfg exEnv 10 "E".toList [] (.variant 1 [.seq [.strukt [.int 7, .none]]])).map
     (JVal.beq · (.obj [("t".toList, .str "B".toList), ("leaf".toList, .arr [.obj [("leafX".toList, .int 7), ("s".toList, .null)]])]))) == some true
-example : (Tree.itemBody exCfg exEnv exEnv[1]!).map (Ts.beq · (.union [.obj [({ name := "t".toList }, .lit "A".toList)],
+example : (Tree.itemBody exCfg exEnv exEnv[2]!).map (Ts.beq · (.union [.obj [({ name := "t".toList }, .lit "A".toList)],
     .obj [({ name := "t".toList }, .lit "B".toList), ({ name := "leaf".toList }, .array (.ref "Leaf".toList []))]])) = some true := by decide +kernel
 
 /-! ## non-vacuity: a real-looking instance through the sound oracle -/
